@@ -44,7 +44,7 @@ from typing import Dict, List, Literal, Optional, Set, Tuple, Union
 from bounded.common import Harness, quiet
 
 MODES = ["yaml", "json", "omegaconf", "jsonnet"]
-POSITION = {"k": "flat", "g.k": "nested", "dc.k": "dataclass"}
+POSITION = {"k": "flat", "g.k": "nested", "dc.k": "dataclass", "values": "flat-method-name", "g.items": "nested-method-name"}
 TEXT = ["argv", "env", "penv"]
 TYPED = ["cfgfile", "cfgstr", "string", "path", "object", "envcfg", "argvgroup"]
 QUICK_OTHER_MODES = ["argv", "string", "object", "argvgroup"]  # quick tier: channels run under json / omegaconf as well
@@ -255,6 +255,9 @@ def parser_for(t, mode, fresh=False):
         p.add_argument("--g.k", type=hint(t))
         p.add_argument("--g.o", type=int, default=0)
         p.add_argument("--dc", type=dataclass_for(t))
+        # options named like Namespace's own methods: every channel must treat them like any other option
+        p.add_argument("--values", type=hint(t))
+        p.add_argument("--g.items", type=hint(t))
         if fresh:
             return p
         PARSERS[key] = p
@@ -625,6 +628,9 @@ def enumerate_settings(thorough, rng):
                     yield (t, v, "g.k", jsonnet and depth == 0, thorough)
                 if thorough or n % 4 == 2:
                     yield (t, v, "dc.k", jsonnet and depth == 0, thorough)
+                if depth == 0 and (thorough or n % 2 == 1):
+                    yield (t, v, "values", False, thorough)
+                    yield (t, v, "g.items", False, thorough)
     if thorough:
         # seeded random values: mutate conforming values of random depth-2 terms at one random position
         pool = d1 + d2
